@@ -134,26 +134,36 @@ func (f *Frame) external(fn *ssa.Function, args []Val, c *ssa.CallCommon, pos to
 			f.assume(eq(app("s_len", nb), app("+", curLen, k)))
 			f.writeAddr(ad, nb)
 		}
+		// ghost: number of newline bytes written so far (not carried by by-value copies)
+		gh := &Addr{kind: "C", loc: builderNLLoc, li: LocInfo{Kind: "C", Val: intT}, ref: args[0].t}
+		addNL := func(k string) { f.writeAddr(gh, app("+", f.readAddr(gh), k)) }
 		switch fn.Name() {
 		case "String":
 			r := vc.freshVal("builder.String", strT)
 			f.assume(eq(app("str.len", r.t), curLen))
+			vc.sc.decl("strings.Count", "(declare-fun strings.Count (String String) Int)")
+			f.assume(eq(app("strings.Count", r.t, smtString("\n")), f.readAddr(gh)))
 			return r, false
 		case "Len":
 			return Val{t: curLen, typ: intT}, false
 		case "Reset":
 			f.writeAddr(ad, "(mk_slice 0 0 0 0)")
+			f.writeAddr(gh, "0")
 			return Val{}, false
 		case "WriteByte":
 			grow("1")
+			addNL(ite(eq(a(1), "10"), "1", "0"))
 			return vc.freshResult(f, sig.Results(), fn.Name()), false
 		case "WriteRune":
 			k := vc.sc.freshConst("utf8len", "Int")
 			f.assume(and(app(">=", k, "1"), app("<=", k, "4")))
 			grow(k)
+			addNL(ite(eq(a(1), "10"), "1", "0"))
 			return vc.freshResult(f, sig.Results(), fn.Name()), false
 		case "WriteString":
 			grow(app("str.len", a(1)))
+			vc.sc.decl("strings.Count", "(declare-fun strings.Count (String String) Int)")
+			addNL(app("strings.Count", a(1), smtString("\n")))
 			return vc.freshResult(f, sig.Results(), fn.Name()), false
 		case "Write":
 			grow(app("s_len", a(1)))
